@@ -316,6 +316,15 @@ func c03Tasks(tier string) []Task {
 		return runTwice(cfg, keys, ops, res)
 	}
 	ml = append(ml, seqLevel{Name: "id-gap-len3", Cfgs: []Cfg{defaultCfg, gm}, Keys: keysAB, Alpha: gapAlpha, Depth: 3, Dev: 3, Run: runGap, MaxViols: 1})
+	// memory-mapped with a DataFileSize ABOVE the 512 MiB mapping unit: a file whose logical size was not restored is not
+	// rotated away from by the next write (at smaller limits the rotation hides it); the newest file is empty right
+	// after a Merge
+	bigAlpha := func(c Cfg) []Op {
+		return []Op{{K: "put", Key: "a", VC: "S"}, {K: "put", Key: "b", VC: "S"}, {K: "del", Key: "a"}, {K: "merge"}, {K: "restart"}}
+	}
+	bigm := defaultCfg
+	bigm.IO, bigm.FileSize = 1, 1<<30
+	ml = append(ml, seqLevel{Name: "mmap-bigfile-len3", Cfgs: []Cfg{bigm}, Keys: keysAB, Alpha: bigAlpha, Depth: 3, Dev: 3, Run: runTwice, MaxViols: 1})
 	return append(tasks, seqTasks("C03", ml)...)
 }
 
